@@ -25,6 +25,10 @@ def run(ctx):
         # token file has the same name at every launch - while a second process has jobs on the token
         {"scens": wcat.token_relaunch_scenarios(), "policies": wcat.POL_PROC + (() if q else ("FIFO", "LIFO", "JOBS")), "bound": 1, "demote": True, "cap": 60000},
     ]
+    # fault dimension: one read of a token file fails with an I/O error (EIO: shared file systems) - every such read of the fault-free
+    # execution around every default policy.  Only the capacity clause is claimed under this fault (what else happens to the job that
+    # met the error is outside the statements of C06 / C09).
+    plan.append({"scens": two + wcat.token_relaunch_scenarios() + wcat.nested_scenarios()[1:], "policies": wcat.POL_WIDE + wcat.POL_PROC + wcat.POL_EAGER[1:], "faults": "token-read"})
     relaunch = wcat.jobkill_relaunch_scenarios()
     for pol in (("FIFO",) + wcat.POL_PROC) if q else (wcat.POL_WIDE + wcat.POL_PROC + wcat.POL_EAGER[1:]):
         plan.append({"scens": relaunch, "policies": (pol,), "kills": {"restart_bound": 0}})
@@ -34,5 +38,5 @@ def run(ctx):
     return run_w(ctx, PROPERTY, plan,
                  "token workloads (capacity; requests) in {(1;1,1) (1;1,1,1) (2;1,1,1) (2;2,1) (3;2,1) (3;2,2) (2;1,2,1)}, failing holder, chain / fork "
                  "under a token, two tokens, file-based and process-level tokens, two simulated processes sharing the token directory with "
-                 "fine-grained points; a failed / killed holder launched again while a second process shares the token (every kill point, long preemptions after the kill); at every launch and every token-file creation the sum of requests of live job processes / of token files "
+                 "fine-grained points; one read of a token file failing with EIO (every read x every default policy); a failed / killed holder launched again while a second process shares the token (every kill point, long preemptions after the kill); at every launch and every token-file creation the sum of requests of live job processes / of token files "
                  "must not exceed the capacity")
